@@ -8,7 +8,7 @@ from typing import Optional
 
 from .. import roles
 from ..dataflow import expand_locals
-from ..engine import (Ctx, calls_in, cond_from_entry, cond_in_loop, early_exits, field_writes, formula_of, kwarg,
+from ..engine import (Ctx, same_value, calls_in, cond_from_entry, cond_in_loop, early_exits, field_writes, formula_of, kwarg,
                       loop_region, rule, same_expr, strip_order_preserving)
 from ..formula import TRUE, canon, equivalent, f_not, implies, show
 from ..model import PKG, AnalysisError, FuncInfo, dotted, src, walk_local
@@ -176,16 +176,14 @@ def result_before_yield(ctx: Ctx):
             yn = g.primary(stmt)
             ok = False
             msg = f'no store into {sn}.{wi.rfield} dominates the success yield'
-            if isinstance(outcome, ast.Attribute) and outcome.attr == 'meta' and isinstance(outcome.value, ast.Name) \
-                    and isinstance(texpr, ast.Name):
+            if isinstance(outcome, ast.Attribute) and outcome.attr == 'meta' and isinstance(outcome.value, ast.Name):
                 rv = outcome.value.id
                 for w in stores:
                     wn = g.primary(w.node)
                     key = w.target.slice
                     val = w.node.value if isinstance(w.node, ast.Assign) else None
-                    if g.dominates(wn, yn) and isinstance(key, ast.Name) and key.id == texpr.id \
-                            and rd.same_binding(wn, yn, texpr.id) and isinstance(val, ast.Name) and val.id == rv \
-                            and rd.same_binding(wn, yn, rv):
+                    if g.dominates(wn, yn) and same_value(ctx, fn, key, wn, texpr, yn) \
+                            and isinstance(val, ast.Name) and val.id == rv and rd.same_binding(wn, yn, rv):
                         ok = True
             else:
                 msg = f'the success outcome `{src(outcome)}` is not `<result>.meta` of the stored result'
@@ -207,17 +205,17 @@ def runner_keying(ctx: Ctx):
             wn = g.primary(w.node)
             ok = False
             msg = f'`{src(w.node)}`: value is not the outcome of executing the key task'
-            if isinstance(key, ast.Name) and isinstance(val, ast.Name):
+            if isinstance(val, ast.Name):
                 vd = rd.single_def(wn, val.id)
                 dv = rd.def_value(vd, val.id) if vd is not None else None
                 if dv and dv[0] == 'value' and isinstance(dv[1], ast.Call):
                     call = dv[1]
                     if rolt(ctx).qualname in ctx.P.resolve_call(call, fn):
                         ta = kwarg(call, 'task', 0)
-                        ok = isinstance(ta, ast.Name) and ta.id == key.id and rd.same_binding(vd, wn, key.id)
+                        ok = same_value(ctx, fn, ta, vd, key, wn)
                         if not ok:
-                            msg = f'result of run_or_load_task(task={src(ta) if ta else "?"}) is stored under `{key.id}`'
-                    elif isinstance(call.func, ast.Attribute) and call.func.attr == 'result' and isinstance(call.func.value, ast.Name):
+                            msg = f'result of run_or_load_task(task={src(ta) if ta else "?"}) is stored under `{src(key)}`'
+                    elif isinstance(key, ast.Name) and isinstance(call.func, ast.Attribute) and call.func.attr == 'result' and isinstance(call.func.value, ast.Name):
                         fv = call.func.value.id
                         # key derives from future_to_task[fv] / .pop(fv) for the same future
                         kd = rd.single_def(wn, key.id)
